@@ -22,7 +22,7 @@ Quirks that are modelled on purpose:
 * `Command::version()` (the expected version) is never looked at;
 * a pre-save listener failure resets `changed_from_cached`, so even a freshly loaded
   aggregate is then not cached;
-* `drop_aggregate` clears the cache of the calling instance only and never the history cache;
+* `drop_aggregate` clears the cache and history cache of the calling instance only;
 * `apply` may panic (`Option` here); `process::exit(1)` when the command key exists (`fatal`).
 
 Import-free so that the driver can be compiled as a `lean_exe`.
@@ -361,9 +361,15 @@ scheduler's throw-away store): empty cache and history cache. -/
 def restart {A : Agg} (e : Ent A) (i : Nat) : Ent A :=
   { e with cache := aerase e.cache i, hcache := aerase e.hcache i }
 
-/-- `drop_aggregate` (store.rs:517-525): the scope is deleted, the calling instance's cache
-entry removed.  Other instances' caches and *every* history cache keep their entry. -/
+/-- `drop_aggregate` (store.rs:517-532): the scope is deleted, then the calling store object
+removes its aggregate-cache entry and (since fix 04272ff6) its history-cache entry.  Other
+store objects keep theirs. -/
 def dropAggregate {A : Agg} (e : Ent A) (i : Nat) : Ent A :=
+  { kv := {}, cache := aerase e.cache i, hcache := aerase e.hcache i }
+
+/-- What the pinned tree (before 04272ff6) did: the history-cache entry stayed.  Only used as a
+counter-model (`Props/C07.lean`, `history_stale_after_drop`). -/
+def dropAggregatePinned {A : Agg} (e : Ent A) (i : Nat) : Ent A :=
   { e with kv := {}, cache := aerase e.cache i }
 
 /-! ### history (store.rs:541-613) -/
@@ -448,6 +454,33 @@ def step {A : Agg} (e : Ent A) : Op A → Ent A × Option (Out A)
   | .hist i cached => ((commandHistory e i cached {}).1, none)
 
 def run {A : Agg} (e : Ent A) (ops : List (Op A)) : Ent A := ops.foldl (fun s o => (step s o).1) e
+
+/-! ### histories that also delete the entity -/
+
+/-- A public operation or `drop_aggregate` through store object `i`. -/
+inductive HOp (A : Agg) where
+  | op (o : Op A)
+  | drop (i : Nat)
+
+def stepH {A : Agg} (e : Ent A) : HOp A → Ent A
+  | .op o => (step e o).1
+  | .drop i => dropAggregate e i
+
+def runH {A : Agg} (e : Ent A) (ops : List (HOp A)) : Ent A := ops.foldl stepH e
+
+/-- No *other* store object holds a cache or history-cache entry of the entity.
+`drop_aggregate` cannot reach those; krill has one long-lived store object per namespace. -/
+def othersForgot {A : Agg} (e : Ent A) (i : Nat) : Prop :=
+  ∀ j, j ≠ i → alookup e.cache j = none ∧ alookup e.hcache j = none
+
+/-- Histories in which every `drop_aggregate` happens while no other store object remembers
+the entity. -/
+def DropSafe {A : Agg} (e : Ent A) : List (HOp A) → Prop
+  | [] => True
+  | o :: rest =>
+    (match o with
+      | .drop i => othersForgot e i
+      | .op _ => True) ∧ DropSafe (stepH e o) rest
 
 /-! ### loading without the help of cache and snapshot -/
 
